@@ -11,7 +11,7 @@ from gvmon.gen import records as R
 from gvmon.models import dialect as M
 from gvmon.monitors import contracts
 
-RULE = ("lines = reference rendering of (record, dialect point); the full cross product of 36 dialect points x attribute "
+RULE = ("lines = reference rendering of (record, dialect point); the full cross product of 48 dialect points x attribute "
         "shape tuples (plain / blank-containing / each escaped reserved character / multi-valued / flag, 1..3 attributes "
         "quick, 1..4 thorough) x extra columns x '.' coordinates is executed, then random records; non-trivial = >= 2 "
         "attributes; distinct = distinct (dialect point, shape tuple, extras, dots) or distinct random line")
@@ -135,7 +135,7 @@ def run(ctx):
     for D in pts:
         for nattr in range(0, maxn + 1):
             for shape in itertools.product(KINDS, repeat=nattr):
-                if D["fmt"] == "gff3" and shape and shape[0] == "flag":
+                if D["fmt"] in ("gff3", "gff3q") and shape and shape[0] == "flag":
                     if ctx.shard == 0:
                         ctx.skip("leading valueless flag in key=value style (outside the grammar)")
                     continue
